@@ -121,7 +121,7 @@ func ruleC20Save(c *Ctx, r *Reporter) {
 		}
 		nW := 0
 		ok := true
-		var writeFile, rename *ssa.Call
+		var writeFile, rename, openFile *ssa.Call
 		AllInstrs(fn, true, func(_ *ssa.Function, ins ssa.Instruction) {
 			call, isCall := ins.(*ssa.Call)
 			if !isCall || !fsWriteFns[staticName(call)] {
@@ -131,6 +131,8 @@ func ruleC20Save(c *Ctx, r *Reporter) {
 			switch staticName(call) {
 			case "os.WriteFile":
 				writeFile = call
+			case "os.OpenFile", "os.Create":
+				openFile = call
 			case "os.Rename":
 				rename = call
 			}
@@ -148,7 +150,27 @@ func ruleC20Save(c *Ctx, r *Reporter) {
 		}
 		// temp + rename
 		r.Rule("temp-then-rename", 2)
-		if writeFile == nil || rename == nil {
+		if writeFile == nil && openFile != nil && rename != nil {
+			// open/write/close form: the temporary file must be truncated (or created exclusively) when opened, the open
+			// checked, and it is what gets renamed
+			const oTrunc, oExcl = 0x200, 0x80 // os.O_TRUNC, os.O_EXCL on linux
+			trunc := staticName(openFile) == "os.Create"
+			if !trunc && len(openFile.Call.Args) >= 2 {
+				if k, isK := constInt(openFile.Call.Args[1]); isK && (k&oTrunc != 0 || k&oExcl != 0) {
+					trunc = true
+				}
+			}
+			opOK := callOKFact(c, func(call *ssa.Call) bool { return call == openFile })
+			good := sameValue(rename.Call.Args[0], openFile.Call.Args[0]) && !sameValue(rename.Call.Args[1], openFile.Call.Args[0]) && GuardedBy(rename.Block(), opOK) && mentionsConstString(rename.Call.Args[1], "MANIFEST", c, 0)
+			switch {
+			case !trunc:
+				r.Bad(name+":atomic-replace", c.InsPos(openFile), "the temporary manifest file is opened without O_TRUNC (or O_EXCL): a longer leftover from an interrupted save keeps its tail, the renamed MANIFEST holds the new JSON followed by old bytes and cannot be loaded again")
+			case !good:
+				r.Bad(name+":atomic-replace", c.InsPos(rename), "the file opened for the new manifest is not the one renamed onto the manifest name (or the open is not checked)")
+			default:
+				r.OK(name+":atomic-replace", c.InsPos(rename), "temp file opened truncating, open checked, then renamed onto the manifest name")
+			}
+		} else if writeFile == nil || rename == nil {
 			r.Bad(name+":atomic-replace", c.FnPos(fn), "manifest is not written to a temporary file and renamed into place")
 		} else {
 			src := rename.Call.Args[0]
